@@ -387,21 +387,31 @@ def clause3(chk):
     for t, o in zip(tasks, outs):
         nm, n, key = o["name"], o["n"], o["key"]
         tol = (K.TOL_ADAMS if K.is_adams(nm) else K.TOL_LIMIT) * n
-        for (mode, seeds, rec, rho, dS, dI, err, i0, note) in o["rows"]:
+        for row in o["rows"]:
+            mode, seeds, rec, rho, dS, dI, i0 = (row[k] for k in ("mode", "seeds", "rec", "rho", "dS", "dI", "i0"))
             chk.cov["evaluations"] += 1
-            s = stats.setdefault((nm, mode), {"n": 0, "worst": 0.0, "bad": 0})
+            s = stats.setdefault((nm, mode), {"n": 0, "worst": 0.0, "bad": 0, "undefined": 0})
             s["n"] += 1
             rp = {"clause": 3, "name": nm, "n": n, "key": key, "scenario": (mode, seeds, rec, rho), "dS": dS, "dI": dI, "tolerance": tol}
-            if note:
-                chk.note("%s [%s]: %s" % (nm, mode, note))
-            if err is not None:
+            if row["note"]:
+                chk.note("%s [%s]: %s" % (nm, mode, row["note"]))
+            if row["err"] is not None:
                 s["bad"] += 1
-                msg, generic = err
-                chk.violation("%s|raises %s|%s" % (nm, msg.split(":")[0], mode),
+                msg, generic = row["err"]
+                chk.violation("%s|raises %s|%s" % (nm, msg.split(":")[0], mode.split("/")[0]),
                               "%s(tau=0, gamma=%g, %s) raised %s on graph w=%r (seeds=%r recovered=%r rho=%r); %s"
                               % (nm, key[3] * RATE_UNIT, mode, msg, key[0], seeds, rec, rho,
                                  "the same call raises with tau=1 as well, i.e. the entry point is unusable in this mode and the tau=0 clause cannot hold for it"
                                  if generic else "the call succeeds with tau=1: the failure is specific to the limit"), rp)
+                continue
+            if row["nonfinite"] == "generic":
+                s["undefined"] += 1     # 0/0 in the closure itself (same with tau=1): not a statement about the limit
+                continue
+            if row["nonfinite"] == "limit":
+                s["bad"] += 1
+                chk.violation("%s|tau=0: non-finite output (finite with tau>0)|%s" % (nm, mode),
+                              "%s(tau=0, gamma=%g, %s) returns nan/inf on graph w=%r seeds=%r recovered=%r rho=%r but is finite with tau=1"
+                              % (nm, key[3] * RATE_UNIT, mode, key[0], seeds, rec, rho), rp)
                 continue
             chk.cov["traces_validated_against_impl"] += 1
             if i0 > 1e-9:
@@ -413,8 +423,13 @@ def clause3(chk):
                               "max|I-I_expected|=%.3g (tolerance %.1g)" % (nm, key[3] * RATE_UNIT, mode, key[0], key[1], seeds, rec, rho, dS, dI, tol), rp)
             else:
                 s["worst"] = max(s["worst"], dS, dI)
+    undefined = sum(s["undefined"] for s in stats.values())
+    if undefined:
+        chk.note("clause 3: %d scenario(s) give non-finite output with tau=0 AND with tau=1 (0/0 in the closure, e.g. no S-S edge); "
+                 "they say nothing about the limit and are not counted (acceptance of such inputs is a C06 matter)" % undefined)
     for (nm, mode), s in sorted(stats.items()):
-        chk.part("clause3 %s [%s]" % (nm, mode), scenarios=s["n"], failing=s["bad"], worst_passing_deviation=s["worst"])
+        chk.part("clause3 %s [%s]" % (nm, mode), scenarios=s["n"], failing=s["bad"], undefined_for_the_closure=s["undefined"],
+                 worst_passing_deviation=s["worst"])
     # -- base functions with numeric initial conditions, arguments as passed by their wrappers ----------
     btasks = []
     keys4 = doms[1][2]
@@ -447,7 +462,13 @@ def clause3(chk):
             s = bstats.setdefault(base, {"n": 0, "worst": 0.0, "bad": 0})
             s["n"] += 1
             rp = {"clause": 3, "base": base, "task": o["task"]}
-            if err is not None:
+            if err == "nonfinite-generic":
+                continue
+            if err == "nonfinite-limit":
+                s["bad"] += 1
+                chk.violation("%s|tau=0: non-finite output (finite with tau>0)|arguments as passed by %s" % (base, wrapper),
+                              "%s called directly with the arguments of %s [%s] returns nan/inf with tau=0 only" % (base, wrapper, mode), rp)
+            elif err is not None:
                 s["bad"] += 1
                 chk.violation("%s|raises %s|arguments as passed by %s" % (base, err.split(":")[0], wrapper),
                               "%s called directly with the arguments %s passes (tau=0) raised %s" % (base, wrapper, err), rp)
@@ -550,10 +571,18 @@ def clause4(chk):
             s = stats.setdefault((x, mode), {"n": 0, "worst": 0.0, "bad": 0})
             s["n"] += 1
             rp = {"clause": 4, "family": x, "n": n, "key": key, "scenario": (mode, seeds, (), rho), "deviation": d, "tolerance": tol}
+            if errs and "_" in errs:
+                if errs["_"] == "nonfinite-limit":
+                    s["bad"] += 1
+                    chk.violation("SIS_%s vs SIR_%s|gamma=0: non-finite output (finite with gamma>0)|%s" % (x, x, mode),
+                                  "gamma=0, tau=%g, %s on graph w=%r seeds=%r rho=%r: nan/inf, finite with gamma=1" % (key[2] * RATE_UNIT, mode, key[0], seeds, rho), rp)
+                else:
+                    s["undefined"] = s.get("undefined", 0) + 1
+                continue
             if errs:
                 s["bad"] += 1
                 for nm, msg in sorted(errs.items()):
-                    chk.violation("%s|raises %s|%s" % (nm, msg.split(":")[0], mode),
+                    chk.violation("%s|raises %s|%s" % (nm, msg.split(":")[0], mode.split("/")[0]),
                                   "%s(tau=%g, gamma=0, %s) raised %s on graph w=%r seeds=%r rho=%r; the SIS/SIR comparison of the family cannot be made"
                                   % (nm, key[2] * RATE_UNIT, mode, msg, key[0], seeds, rho), rp)
                 continue
@@ -567,7 +596,8 @@ def clause4(chk):
             else:
                 s["worst"] = max(s["worst"], d)
     for (x, mode), s in sorted(stats.items()):
-        chk.part("clause4 SIS_%s vs SIR_%s [%s]" % (x, x, mode), scenarios=s["n"], failing=s["bad"], worst_passing_deviation=s["worst"])
+        chk.part("clause4 SIS_%s vs SIR_%s [%s]" % (x, x, mode), scenarios=s["n"], failing=s["bad"], undefined_for_the_closure=s.get("undefined", 0),
+                 worst_passing_deviation=s["worst"])
     if tasks:
         t0 = tasks[len(tasks) // 3]
         chk.sample({"clause": 4, "family": t0["family"], "graph_w": t0["key"][0], "tau": t0["key"][2] * RATE_UNIT, "gamma": 0.0,
@@ -660,14 +690,14 @@ def replay(path):
         o = K.c3_task(t)
         print(o)
         tol = (K.TOL_ADAMS if K.is_adams(r["name"]) else K.TOL_LIMIT) * r["n"]
-        bad = any(row[6] is not None or max(row[4], row[5]) > tol for row in o["rows"])
+        bad = any(row["err"] is not None or row["nonfinite"] == "limit" or (row["nonfinite"] is None and max(row["dS"], row["dI"]) > tol) for row in o["rows"])
     elif cl == 3 and "base" in r:
         _survival_only()
         table = K.ode_table()
         t = dict(r["task"], key=_key(r["task"]["key"]), scenario=_scen(r["task"]["scenario"]), bases=K.spy_bases(table), table=table)
         o = K.c3_base_task(t)
         print(o["rows"])
-        bad = any(row[5] is not None or max(row[3], row[4]) > K.TOL_ADAMS * 4 for row in o["rows"] if row[0] == r["base"])
+        bad = any((row[5] is not None and row[5] != "nonfinite-generic") or (row[5] is None and max(row[3], row[4]) > K.TOL_ADAMS * 4) for row in o["rows"] if row[0] == r["base"])
     elif cl == 3 and "nograph" in r:
         _survival_only()
         G = K.graphs()[r["graph"]]
